@@ -47,6 +47,9 @@ mod c20;
 pub mod c24;
 #[path = "/verif/harness/c22.rs"]
 pub mod c22;
+#[cfg(feature = "inter-task-wakeup")]
+#[path = "/verif/harness/c23.rs"]
+pub mod c23;
 #[cfg(kani)]
 #[path = "/verif/harness/btmodel.rs"]
 pub mod btmodel;
